@@ -212,6 +212,37 @@ def check(run):
     for t in ("float32", "float64"):
         if t in verbs and verbs[t][1] not in ("%d", "%v", "%g", "%f"):
             wits.append({"kind": "float to_string uses an unexpected verb", "type": t, "impl": verbs[t]})
+    # ---- arithmetic with a Python oracle: wrap-around, truncating division, failing division by zero (also when the
+    # quotient is unused), signed/unsigned comparison, operands as parameters / two literals / variable and literal ----
+    import numgen
+    import semrun
+
+    arng = run.sub_rng("c10-arith")
+    acases = [numgen.program(arng, t) for t in TYPES for _ in range(8 if run.tier == "quick" else 150)]
+    astats = {"programs": len(acases), "agree_with_oracle": 0, "programs_ending_in_division_by_zero": sum(1 for c in acases if c[2])}
+    try:
+        aroot, apaths = semrun.write_programs("c10arith", [c[0] for c in acases])
+        ares = semrun.compare("c10arith", apaths, src_stage="tast", expected=[c[1] for c in acases])
+        for (src, exp, fails), r in zip(acases, ares):
+            if r["status"] == "agree" and r.get("matches_recorded_output"):
+                astats["agree_with_oracle"] += 1
+                continue
+            kind = {
+                "differ": "the emitted Go computes differently from the source program",
+                "go-stuck": "Go would reject or mis-evaluate the emitted arithmetic (constant expression on two literals, zero constant divisor, ill-typed operand)",
+                "agree": "source and Go agree with each other but not with wrap-around / truncating-division arithmetic",
+                "panic": "the compiler panicked on an arithmetic program",
+                "rejected": "a well-typed arithmetic program was rejected",
+            }.get(r["status"], "arithmetic program: " + r["status"])
+            w = {"kind": kind, "status": r["status"], "program": src, "expected_stdout": exp.decode(), "ends_in_division_by_zero": fails}
+            try:
+                w.update(semrun.details("c10arith_w", apaths[acases.index((src, exp, fails))], src_stage="tast"))
+            except Exception as e:  # noqa
+                w["details_error"] = repr(e)[:200]
+            wits.append(w)
+        shutil.rmtree(aroot, ignore_errors=True)
+    except Broken as b:
+        broken.append(b)
     n_lit = len(cases)
     run.add_cases(n_lit + len(oprogs) + 1, len({(c[0], c[1]) for c in cases}) , samples=[{"type": c[0], "literal": c[1], "form": c[2], "impl": read_literal(c[0], c[2], r)} for c, r in list(zip(cases, res))[127:131] + list(zip(cases, res))[-2:]])
     run.cov["rule"] = (
@@ -219,7 +250,12 @@ def check(run):
         "plus random values; each one-literal program is compiled by the real compiler and the accepted/rejected verdict and the Go literal text are compared in coqc with parse_lit/go_lit; "
         "operators: all 8 types x (+ - * / < > <= >= == !=, unary -) — the emitted Go must apply the same operator to operands of the same-named Go type; to_string verbs read from the emitted runtime. non-trivial = distinct (type, literal)"
     )
-    run.cov["correspondence"] = {"literal_cases": n_lit, "operator_programs": len(oprogs), "model_mismatches": len(mism), "accepted": sum(1 for c, r in zip(cases, res) if r.get("ok")), "rejected": sum(1 for c, r in zip(cases, res) if not r.get("ok"))}
+    run.cov["rule"] += (
+        "; arithmetic: programs over all eight integer types with boundary and random operand values, the four operators through parameters, on two literals, on a variable and a literal, inline, "
+        "divisions whose quotient is never read, six comparisons and negation; the typed source tree (Sem/Src.v) and the emitted Go AST (Sem/GoSem.v, which treats an operation on two literals as Go does: exact, invalid on overflow or a zero constant divisor) "
+        "must agree with each other and with a Python oracle (wrap modulo 2^N, truncation toward zero, failure at the first division by zero)"
+    )
+    run.cov["correspondence"] = {"arithmetic": astats, "literal_cases": n_lit, "operator_programs": len(oprogs), "model_mismatches": len(mism), "accepted": sum(1 for c, r in zip(cases, res) if r.get("ok")), "rejected": sum(1 for c, r in zip(cases, res) if not r.get("ok"))}
     run.cov["open_obligations"] = [
         "float literals and float32 rounding: only the type mapping float32->Go float32 is checked; decimal->binary conversion and Go's float formatting are not modelled",
         "Go's semantics of sized integer arithmetic (wrap) is a model of the Go specification, validated only against the recorded corpus outputs",
